@@ -485,7 +485,7 @@ package schema
 //@   ensures len(arg0.errors) >= old(len(arg0.errors)) && checksRun == old(checksRun) + 1
 
 //@ func (*parser).typeCheck
-//@   props C11 C13
+//@   props C11 C12 C13
 //@   noframe
 //@   requires p != nil && (forall k in 0..len(p.checks) :: p.checks[k] != nil)
 //@   modifies p.errors, checksRun
@@ -525,7 +525,7 @@ package schema
 // accepted traverse needs: every type of R names a namespace that declares P.
 //@ spec typesdeclare(ns []namespace, ts []ast.RelationType, rel string) bool = forall k in 0..len(ts) :: hasrel(ns, ts[k].Namespace, rel)
 //@ func recursiveCheckAllRelationsTypesHaveRelation
-//@   props C11 C13
+//@   props C11 C12 C13
 //@   noframe
 //@   requires p != nil
 //@   modifies p.errors
